@@ -72,3 +72,26 @@ Example C10_F8_refuted :
    option_map f_data (fs_get (fs w_fin) t))
   = ((true, 0%Z), 0%Z, Some [7; 2]).     (* exit 0, but t still holds the bytes built from s = 2 *)
 Proof. vm_compute. reflexivity. Qed.
+
+(* recovery is never refused because of what a killed build left in the Deps
+   table: on EVERY database (old edges only flagged for deletion beside the
+   edges a successor recorded, cycles among them included) the dirtiness walk
+   of the next command terminates and never answers "cyclic dependency"
+   (finding F78; Build/WalkTerminates.v) *)
+From Redo Require Import Build.WalkTerminates.
+Theorem C10_walk_total_on_leftover_rows : forall runid cyc w c f r mx,
+  (forall fuel seen w' c' e, is_dirty fuel runid cyc w c f r mx seen <> Ret (VCycle, w', c', e))
+  /\ (let U := f :: map d_source (deps (dbs w)) in
+      forall fuel, (length (nodup PeanoNat.Nat.eq_dec U) < fuel)%nat ->
+      is_dirty fuel runid cyc w c f r mx [] <> EFuel).
+Proof.
+  intros runid cyc w c f r mx. split.
+  - intros fuel seen w' c' e. apply is_dirty_never_cyclic.
+  - exact (walk_terminates runid cyc w c f r mx).
+Qed.
+Check C10_walk_total_on_leftover_rows : forall runid cyc w c f r mx,
+  (forall fuel seen w' c' e, is_dirty fuel runid cyc w c f r mx seen <> Ret (VCycle, w', c', e))
+  /\ (let U := f :: map d_source (deps (dbs w)) in
+      forall fuel, (length (nodup PeanoNat.Nat.eq_dec U) < fuel)%nat ->
+      is_dirty fuel runid cyc w c f r mx [] <> EFuel).
+Print Assumptions C10_walk_total_on_leftover_rows.
